@@ -99,11 +99,13 @@ def run_case(desc):
         if e.domain is not None and cyc > 0:
             # the documented / third-party domain of the strategy's model (e.g. GaussianNB on coinciding labelled rows) is
             # judged on the labels of the current cycle: the loop ends where it is left
-            c.lab = ~np.isnan(y)
-            c.n_labeled = int(c.lab.sum())
-            c.n_classes_obs = len(set(y[c.lab].tolist())) if c.kind != "reg" else None
+            import copy as _copy
+            view = _copy.copy(c)           # (the case itself keeps its initial description)
+            view.lab = ~np.isnan(y)
+            view.n_labeled = int(view.lab.sum())
+            view.n_classes_obs = len(set(y[view.lab].tolist())) if c.kind != "reg" else None
             try:
-                left = e.domain(c)
+                left = e.domain(view)
             except Exception:
                 left = None
             if left:
